@@ -37,12 +37,12 @@ func RewriteSchemaToRef(sp *spec.Swagger, key string, ref spec.Ref) error {
 		return rewriteParentRef(sp, key, ref)
 
 	case *spec.SchemaOrArray:
-		if refable.Schema != nil {
+		if refable != nil && refable.Schema != nil {
 			refable.Schema = &spec.Schema{SchemaProps: spec.SchemaProps{Ref: ref}}
 		}
 
 	case *spec.SchemaOrBool:
-		if refable.Schema != nil {
+		if refable != nil && refable.Schema != nil {
 			refable.Schema = &spec.Schema{SchemaProps: spec.SchemaProps{Ref: ref}}
 		}
 	case map[string]interface{}: // this happens e.g. if a schema points to an extension unmarshaled as map[string]interface{}
@@ -209,13 +209,17 @@ func UpdateRef(sp interface{}, key string, ref spec.Ref) error {
 
 	switch refable := value.(type) {
 	case *spec.Schema:
+		if refable == nil {
+			// JSON pointer to an absent optional schema
+			return ErrNoSchemaWithRef(key, value)
+		}
 		refable.Ref = ref
 	case *spec.SchemaOrArray:
-		if refable.Schema != nil {
+		if refable != nil && refable.Schema != nil {
 			refable.Schema.Ref = ref
 		}
 	case *spec.SchemaOrBool:
-		if refable.Schema != nil {
+		if refable != nil && refable.Schema != nil {
 			refable.Schema.Ref = ref
 		}
 	case spec.Schema:
@@ -272,6 +276,10 @@ func UpdateRefWithSchema(sp *spec.Swagger, key string, sch *spec.Schema) error {
 
 	switch refable := value.(type) {
 	case *spec.Schema:
+		if refable == nil {
+			// JSON pointer to an absent optional schema
+			return ErrNoSchemaWithRef(key, value)
+		}
 		*refable = *sch
 	case spec.Schema:
 		_, entry, pvalue, erp := getParentFromKey(sp, key)
@@ -310,9 +318,15 @@ func UpdateRefWithSchema(sp *spec.Swagger, key string, sch *spec.Schema) error {
 			return ErrUnhandledParentType(key, value)
 		}
 	case *spec.SchemaOrArray:
+		if refable == nil || refable.Schema == nil {
+			return ErrNoSchemaWithRef(key, value)
+		}
 		*refable.Schema = *sch
 	// NOTE: can't have case *spec.SchemaOrBool = parent in this case is *Schema
 	case *spec.SchemaOrBool:
+		if refable == nil || refable.Schema == nil {
+			return ErrNoSchemaWithRef(key, value)
+		}
 		*refable.Schema = *sch
 	default:
 		return ErrNoSchemaWithRef(key, value)
@@ -363,6 +377,10 @@ DOWNREF:
 
 		switch refable := value.(type) {
 		case *spec.Schema:
+			if refable == nil {
+				// pointer to an absent optional schema: there is nothing to resolve
+				return nil, ErrNoSchema(currentRef.String())
+			}
 			if refable.Ref.String() == "" {
 				break DOWNREF
 			}
@@ -375,12 +393,18 @@ DOWNREF:
 			currentRef = refable.Ref
 
 		case *spec.SchemaOrArray:
+			if refable == nil {
+				return nil, ErrNoSchema(currentRef.String())
+			}
 			if refable.Schema == nil || refable.Schema != nil && refable.Schema.Ref.String() == "" {
 				break DOWNREF
 			}
 			currentRef = refable.Schema.Ref
 
 		case *spec.SchemaOrBool:
+			if refable == nil {
+				return nil, ErrNoSchema(currentRef.String())
+			}
 			if refable.Schema == nil || refable.Schema != nil && refable.Schema.Ref.String() == "" {
 				break DOWNREF
 			}
